@@ -55,6 +55,10 @@ class Node(Entity):
         if event.event_type == "resolve":
             md["future"].resolve(now)
             return None
+        if event.event_type == "cancel":
+            md["victim"].cancel()
+            plan = md["plan"]
+            return self._step(plan, md["chain"], md["k"]) if plan else None
         plan = md["plan"]
         if not plan:
             return None
@@ -72,6 +76,16 @@ class Node(Entity):
             return [self._emit(self, now + step[1], rest, chain, k + 1)]
         if kind == "x":
             return [self._emit(self._world.nodes[step[1]], now + step[2], rest, chain, k + 1)]
+        if kind == "xd":  # daemon event crossing the link (heartbeat-style traffic)
+            ev = self._emit(self._world.nodes[step[1]], now + step[2], rest, chain, k + 1)
+            ev.daemon = True
+            return [ev]
+        if kind == "xc":  # cross event due after several windows, cancelled by its sender one window later
+            far = self._emit(self._world.nodes[step[1]], now + step[2], (), chain, k + 1)
+            far.event_type = f"c{chain}.{k + 1}.cancelled-later"
+            canceller = Event(time=Instant(now + step[3]), event_type="cancel", target=self,
+                              context={"metadata": {"victim": far, "plan": rest, "chain": chain, "k": k + 1}})
+            return [far, canceller]
         if kind == "g":
             return self._gen(step[1], rest, chain, k)
         if kind == "f":
@@ -365,6 +379,9 @@ def step_alphabet(n, node, topo, window_ns, rich):
     if rich:
         # generator sleeping one window / across more than two windows; future resolved locally
         steps += [("g", window_ns), ("g", 2 * window_ns + 1), ("f", 1)]
+    if rich == "cancel-daemon":
+        for j in dests:
+            steps += [("xd", j, L_NS), ("xc", j, 3 * L_NS, window_ns + 1)]
     return steps, dests
 
 
@@ -375,7 +392,7 @@ def plans_from(n, node, topo, window_ns, depth, rich):
         return out
     steps, _ = step_alphabet(n, node, topo, window_ns, rich)
     for st in steps:
-        nxt = st[1] if st[0] == "x" else node
+        nxt = st[1] if st[0] in ("x", "xd") else node
         for tail in plans_from(n, nxt, topo, window_ns, depth - 1, rich):
             out.append((st,) + tail)
     return out
@@ -396,7 +413,7 @@ def starters(n, topo, window_ns, depth, rich):
 
 def nontrivial(program, window_ns):
     """A program is non-trivial when some chain crosses partitions."""
-    return any(any(s[0] == "x" for s in plan) for (_n, _t, plan) in program)
+    return any(any(s[0] in ("x", "xd", "xc") for s in plan) for (_n, _t, plan) in program)
 
 
 def _work(job):
@@ -623,6 +640,11 @@ def main(tier, seed, only=None):
             run_programs(run, "p3-chain", 3, "chain", W[:2], 3, 1, full_end, ["fwd", "rev"], False, seed)
         if want("p2-link-latency"):
             run_programs(run, "p2-link-latency", 2, "bi-lat", W[:2], 3, 1, cut_end, ["fwd"], True, seed)
+        if want("p2-cancel-daemon"):
+            # sender-side cancellation after the barrier; daemon events crossing a link (finite end only:
+            # without end_time the sequential engine auto-terminates on daemon-only heaps, the coordinator does not)
+            run_programs(run, "p2-cancel-daemon", 2, "bi", W[:2], 2, 1, lambda w: [12 * w, 5 * w + 1], ["fwd", "rev"],
+                         "cancel-daemon", seed)
         if want("independent"):
             run_independent(run, seed, 1)
         if want("schedules"):
@@ -642,6 +664,11 @@ def main(tier, seed, only=None):
             run_programs(run, "p3-bi", 3, "bi", W[:2], 3, 1, full_end, ["fwd", "rev"], False, seed)
         if want("p2-link-latency"):
             run_programs(run, "p2-link-latency", 2, "bi-lat", W, 4, 1, cut_end, ["fwd", "rev"], True, seed)
+        if want("p2-cancel-daemon"):
+            run_programs(run, "p2-cancel-daemon", 2, "bi", W, 3, 1, lambda w: [12 * w, 5 * w + 1], ["fwd", "rev"],
+                         "cancel-daemon", seed)
+            run_programs(run, "p3-cancel-daemon", 3, "chain", W[:2], 3, 1, lambda w: [12 * w], ["fwd", "rev"],
+                         "cancel-daemon", seed)
         if want("independent"):
             run_independent(run, seed, 2)
         if want("schedules"):
